@@ -293,6 +293,7 @@ pub fn run_c19(tier: Tier) -> i32 {
     }
     let next_job = AtomicUsize::new(0);
     let total: Mutex<(u64, HashSet<u64>, Vec<(String, String)>, u64)> = Mutex::new((0, HashSet::new(), vec![], 0));
+    let samples: Mutex<Vec<String>> = Mutex::new(vec![]);
     let cap_parts = if tier == Tier::Quick { 9 } else { 9 };
     std::thread::scope(|s| {
         for _ in 0..nthreads() {
@@ -356,6 +357,12 @@ pub fn run_c19(tier: Tier) -> i32 {
                                 };
                                 let (want, want_log) = reference(kinds, &env);
                                 let got_log = env.log.borrow().clone();
+                                if evals % 40_009 == 1 {
+                                    let mut sm = samples.lock().unwrap();
+                                    if sm.len() < 6 {
+                                        sm.push(format!("{label}: invoked {got_log:?} -> {got:?}"));
+                                    }
+                                }
                                 if got_log != want_log {
                                     let sig = if got_log.iter().filter(|e| matches!(e, Entry::Handler(_))).count()
                                         != want_log.iter().filter(|e| matches!(e, Entry::Handler(_))).count()
@@ -392,6 +399,6 @@ pub fn run_c19(tier: Tier) -> i32 {
         &failures,
         json!({"nestings": nestings.len(), "nestings_skipped_over_part_cap": skipped, "part_cap": cap_parts}),
         "every nesting of <=3 wrappers from {before(h), after(h), before_and_after(h), before().then(h1)[.then(h2)[.then(h3)]].serving(s)} around a recording handler (259 type instantiations, built by generic code, no dynamic dispatch over tarpc types); for each nesting every assignment of behaviours: each before-part in {ok, ok+mutate ctx, fail}, each after-part in {keep, Ok->Err, Err->Ok}, handler in {Ok, Err}; nestings whose parts exceed the cap are listed as skipped; exact equality of the invocation log (who ran, order, context marker seen, result seen) and of the final Result with a reference interpreter",
-        vec![json!({"case": "nesting [2,1,4] before [Mutate,Ok,Fail] after [Keep,ErrToOk] handler Err"})],
+        samples.into_inner().unwrap().into_iter().map(|c| json!({"case": c})).collect(),
     )
 }
